@@ -352,3 +352,51 @@ func VH_C04_funcNode() {
 	vAssert(posts == 0 && later == 0, "no-callback-after-the-ending-error")
 	m.finish(err)
 }
+
+// a node may implement Node and FallbackNode WITHOUT being retryable (no BaseNode, no retry
+// settings): one attempt, then its fallback — whose outcome decides whether the run fails
+type c04PlainFb struct {
+	m     *c04Mon
+	posts int
+	fbs   int
+}
+
+func (n *c04PlainFb) Prep(ctx context.Context, s *SharedStore) (any, error) { n.m.enter(); return nil, nil }
+func (n *c04PlainFb) Exec(ctx context.Context, p any) (any, error) {
+	n.m.enter()
+	return nil, vNewErr() // the only attempt fails
+}
+func (n *c04PlainFb) ExecFallback(p any, err error) (any, error) {
+	n.m.enter()
+	n.fbs++
+	if vNondet[bool]("fbFail") {
+		return nil, n.m.end()
+	}
+	return 1, nil
+}
+func (n *c04PlainFb) Post(ctx context.Context, s *SharedStore, p, e any) (Action, error) {
+	n.m.enter()
+	n.posts++
+	return "next", nil
+}
+
+func VH_C04_plainFallback() {
+	vUnwind(6)
+	m := &c04Mon{}
+	n := &c04PlainFb{m: m}
+	var err error
+	if vNondet[bool]("inFlow") {
+		after := &vSimpleNode{act: "end"}
+		f := NewFlow(n)
+		f.Connect(n, "next", after)
+		err = f.Run(vNewCtx(), NewSharedStore())
+		if !m.dead {
+			vAssert(after.visits == 1, "outer-continues-after-inner-flow")
+		}
+	} else {
+		_, err = Run(vNewCtx(), n, NewSharedStore())
+	}
+	vAssert(n.fbs == 1, "non-nil-error-when-a-phase-failed") // the fallback is part of the exec phase of every FallbackNode
+	vCover("plain-node-with-fallback")
+	m.finish(err)
+}
